@@ -71,7 +71,9 @@ Definition err (kind : string) (s : st) : st :=
            | Some (l, n, f) => mkDiag f (Some l) (Some n) (macro s) (runes kind)
            | None => mkDiag (cfile s) (if has_cur s then Some (line s) else None) None (macro s) (runes kind)
            end in
-  s <| diags ::= fun l => l ++ [d] |>.
+  s <| diags ::= cons d |>.      (* newest first; [diagnostics] gives them in order *)
+
+Definition diagnostics (s : st) : list diag := rev (diags s).
 
 (* ctx.W(): paragraph buffer while in a paragraph, the output writer otherwise *)
 Definition w (x : str) (s : st) : st := if par s then s <| buf ::= fun b => b ++ x |> else s <| wout ::= fun b => b ++ x |>.
